@@ -35,9 +35,13 @@ int move_or_destruct (object dest) {
   if (stringp (s))
     foreach (string op in explode (s, ";")) {
       string k = explode (op, ",")[0];
-      if (k == "shb" || k == "q" || k == "clone" || k == "flag" || k == "hbs" || k == "err" || k == "cerr") do_op (op);
+      if (k == "shb" || k == "q" || k == "clone" || k == "flag" || k == "hbs" || k == "err" || k == "cerr" || k == "dest"
+          || k == "mv") do_op (op);
+      if (!this_object ()) break;   // destructed itself (the only destruct restrict_destruct allows here)
     }
-  VL ("hookend " + me);
+  if (!this_object ()) VL ("hookend " + me + " !gone");
+  else if (environment (this_object ()) != env) VL ("hookend " + me + " !moved");
+  else VL ("hookend " + me);
   return 0;   // not moved: the driver destructs this object
 }
 
@@ -121,6 +125,13 @@ mixed do_op (string s) {
     break;
   case "err":
     error ("boom " + me + "\n");
+    break;
+  case "mv":      // mv,<dest>: this object moves (out of its carrier, if it has one) into dest
+    ob = "/c11/reg"->get (w[1]);
+    if (ob && clonep (ob) && clonep (this_object ()) && ob != this_object () && !environment (ob) && !first_inventory (this_object ())) {
+      move_object (ob);
+      VL ("r mv " + me + " " + w[1]);
+    } else VL ("r mv " + me + " " + w[1] + " !none");
     break;
   case "cerr":    // the error is caught: error_handler leaves through its catch branch
     catch (error ("boom " + me + "\n"));
